@@ -55,7 +55,7 @@ def unbounded(ctx):
                    "CONSTANT Vals <- MCVals\nINVARIANT IndInv\nINVARIANT C19\nPROPERTY RefinesLamport\n")
     if ref.violated:
         raise vlib.Inconclusive("LamportInd does not refine Lamport.tla at MAX=4 (%s) -- spec error, no verdict" % ref.violated)
-    return {"tool": "apalache-mc 0.58.0 (inductive step, MAX symbolic, 3 threads) + TLC refinement LamportInd => Lamport!Acts",
+    return {"tool": "apalache-mc 0.58.0 (inductive step, MAX symbolic, 6 threads) + TLC refinement LamportInd => Lamport!Acts",
             "obligations": ["Init => IndInv", "IndInv /\\ Next => IndInv'", "IndInv => C19", "wrap finding reachable in <= 4 steps"],
             "refinement_states": ref.distinct, "refinement_constants": "MAX=4, 2 threads, witness values 0..4"}
 
